@@ -8,6 +8,7 @@ from __future__ import annotations
 
 from vf.gen import hdlc_gen, splits
 from vf.mon import hdlc_mon
+from vf.ref import hdlc_ref
 
 ID = "C02"
 LEVEL = "exploration"
@@ -147,6 +148,25 @@ def make_stream(rng, cfg, ctx=None, max_frames: int = 8, small: bool = False):
                 out += hdlc_gen.on_wire(sib[0], stuffing) + b"\x7e"
                 if ctx is not None:
                     ctx.count("sibling_frames_after_their_look_alike")
+    if not small and rng.random() < 0.08:
+        # a meter sends frame after frame with the same header layout (one-octet addresses) - then one frame from a station with a
+        # four-octet address that reads like a complete header under the old layout
+        dst, src = hdlc_ref.address(rng, 1), hdlc_ref.address(rng, 1)
+        last = None
+        for _ in range(rng.randint(8, 12)):
+            info = ids.next() + hdlc_gen.info_bytes(rng, rng.randint(2, 30), False)
+            d = {"type": 0xA, "seg": False, "dst": dst, "src": src, "ctrl": rng.randrange(256), "info": info}
+            fr = hdlc_ref.build(0xA, False, dst, src, d["ctrl"], info)
+            if stuffing or hdlc_gen.in_plain_domain(fr, abort):
+                sent.append((fr, d))
+                out += hdlc_gen.on_wire(fr, stuffing) + b"\x7e"
+                last = d
+        mim = hdlc_gen.layout_mimic(rng, last, ids) if last else None
+        if mim is not None and (stuffing or hdlc_gen.in_plain_domain(mim[0], abort)):
+            sent.append(mim)
+            out += hdlc_gen.on_wire(mim[0], stuffing) + b"\x7e"
+            if ctx is not None:
+                ctx.count("runs_of_one_header_layout_followed_by_a_mimic_frame")
     return bytes(out), sent
 
 
